@@ -141,6 +141,7 @@ def run_one(ck, prog):
                       detail="the result must be written after the user function returned and before the hand-over flag is flipped")
             ck.ob("C05.4", "flag-release", is_release(cas[0].success_order), fn=T.CLOSURE, detail=f"the hand-over CAS publishes the result; ordering {cas[0].success_order}")
     T.check_tls_outlives_user_fn(ck, prog, "C05.4")
+    T.check_tls_not_read_after_free(ck, prog, "C05.4")
     # the exit word a joiner trusts is written by the kernel when the thread exits; a thread that frees its own join block must first
     # detach that write (else it hits recycled memory: another thread's exit word, whose join then returns before that thread finished)
     T.check_clear_tid_reset(ck, prog, "C05.5")
